@@ -48,6 +48,22 @@ def main():
         tb = traceback.format_exc()
         print(tb)
         ctx.add("corr", "harness-exception", "the check crashed: " + tb.strip().split("\n")[-1], {"traceback": tb[-4000:]})
+    if tier == "thorough" and pid in ("C01", "C02", "C09", "C14", "C17") and not os.environ.get("VERIF_EVIDENCE_SUFFIX"):
+        # the same streams once more under the other protobuf runtime (pure Python instead of upb), as a child process
+        import subprocess
+        env = dict(os.environ, PROTOCOL_BUFFERS_PYTHON_IMPLEMENTATION="python", VERIF_EVIDENCE_SUFFIX=".pybackend", VERIF_TIER="quick")
+        p = subprocess.run([sys.executable, os.path.abspath(__file__), pid, "--tier", "quick", "--no-build"], env=env,
+                           stdout=subprocess.PIPE, stderr=subprocess.STDOUT, timeout=3600)
+        out = p.stdout.decode(errors="replace")
+        ctx.cov["second_protobuf_backend"] = {"implementation": "python", "exit": p.returncode, "summary": out.strip().split("\n")[-1][:300]}
+        if p.returncode != 0:
+            vl = [l for l in out.split("\n") if l.startswith("VIOLATION")]
+            ctx.add("oracle" if vl and "no-failing-input-found" not in vl[0] else "corr", "second-backend",
+                    "under the pure-Python protobuf runtime: " + (vl[0] if vl else out[-300:]), {"child_output": out[-3000:]})
+        try:
+            os.remove(os.path.join(common.VERIF, "evidence", pid + ".pybackend.json"))
+        except FileNotFoundError:
+            pass
     if tier == "thorough":
         bad = common.grep_gate()
         if bad:
